@@ -165,8 +165,8 @@ func allRunners() []runner {
 			panic("ed25519 generator not on the reference curve")
 		}
 		g.indepName = "math/big affine twisted Edwards"
-		g.indep = func(v int) (*big.Int, *big.Int, bool) { p := eEd25519.mulInt(v, G); return p.x, p.y, false }
-		// the identity has affine coordinates (0, 1) on an Edwards curve: compare them like any other point
+		g.indep = func(v int) (*big.Int, *big.Int, bool) { p := eEd25519.mulInt(v, G); return p.x, p.y, v == 0 }
+		// (the library gives no affine coordinates for the identity (0, 1), so v = 0 is compared through IsOpIdentity)
 		out = append(out, mkRunner(g))
 	}
 	{ // edwards25519, full curve (cofactor 8), generator of the prime subgroup
@@ -178,7 +178,7 @@ func allRunners() []runner {
 		gx, gy, _ := g.affine(g.gen)
 		G := apt{x: gx, y: gy}
 		g.indepName = "math/big affine twisted Edwards"
-		g.indep = func(v int) (*big.Int, *big.Int, bool) { p := eEd25519.mulInt(v, G); return p.x, p.y, false }
+		g.indep = func(v int) (*big.Int, *big.Int, bool) { p := eEd25519.mulInt(v, G); return p.x, p.y, v == 0 }
 		out = append(out, mkRunner(g))
 	}
 	{ // curve25519, prime subgroup and full curve: no second model of its own, cross-checked against chains only
@@ -187,10 +187,14 @@ func allRunners() []runner {
 			func(s []*curve25519.Scalar, p []*curve25519.PrimeSubGroupPoint) *curve25519.PrimeSubGroupPoint {
 				return algebrautils.MultiScalarMul(s, p)
 			})
+		g.bytes = func(a *curve25519.PrimeSubGroupPoint) []byte { return a.ToUncompressed() } // Bytes() is the u-coordinate only
+		g.fromBytes = c.FromUncompressed
 		out = append(out, mkRunner(g))
 		f := curve25519.NewCurve()
 		gf := mkCurve("x25519-full", f.PrimeSubGroupGenerator(), f.OpIdentity(), curve25519.NewScalarField(), c.Order().Big(), f.FromBytes, nil, nil,
 			func(s []*curve25519.Scalar, p []*curve25519.Point) *curve25519.Point { return algebrautils.MultiScalarMul(s, p) })
+		gf.bytes = func(a *curve25519.Point) []byte { return a.ToUncompressed() }
+		gf.fromBytes = f.FromUncompressed
 		out = append(out, mkRunner(gf))
 	}
 	{ // Pallas / Vesta
